@@ -182,7 +182,9 @@ fn probes<T: Tier>() -> Vec<[T; 3]> {
 fn judge<T: Tier, R: Rep3<T>>(ctx: &mut Ctx, ax: [T; 3], ang: Rad<T>, cs: (T::M, T::M), cs2: (T::M, T::M), theta: f64, axis_index: Option<usize>, slack: f64) {
     let max = lift_v(ax);
     let r = R::axis_angle(mk_v3(ax), ang);
-    let want = model::axis_angle_mat(max, cs);
+    // entries of a rotation matrix are sums of O(1) terms: a route through half angles (the quaternion) knows them to an
+    // absolute, not a relative, rounding (the sine entries of axis-aligned rotations are judged relatively below)
+    let want = model::axis_angle_mat(max, cs).map(|c| c.map(|x| x.with_abs_err(4.0)));
     let name = R::NAME;
     // maps every v to Rodrigues' formula
     eq_mc::<T, 3>(ctx, &key(&format!("from_axis_angle/{name}")), r.mat(), want, slack);
@@ -196,8 +198,12 @@ fn judge<T: Tier, R: Rep3<T>>(ctx: &mut Ctx, ax: [T; 3], ang: Rad<T>, cs: (T::M,
             let sense = model::vdot(axv, lift_v(rv));
             ctx.check(sense.approx() > 0.0, &key(&format!("from_axis_angle/{name}/counter-clockwise")), || format!("(a x v).(R v) = {:?} for angle {theta}", sense));
         }
-        // rotate_point(p) = rotate_vector(p - origin)
-        same_slice(ctx, &key(&format!("rotate_point/{name}")), &p3(r.rot_p(mk_p3(v))), &rv);
+        // rotate_point(p) = rotate_vector(p - origin): the same numbers in the exact tier, the same up to rounding otherwise
+        if T::EXACT {
+            same_slice(ctx, &key(&format!("rotate_point/{name}")), &p3(r.rot_p(mk_p3(v))), &rv);
+        } else {
+            eq_vc::<T, 3>(ctx, &key(&format!("rotate_point/{name}")), p3(r.rot_p(mk_p3(v))), model::rodrigues(max, cs, lift_v(v)), slack);
+        }
     }
     ctx.check(r.structure_ok(), &key(&format!("from_axis_angle/{name}/homogeneous-part")), || "fourth row/column is not that of the identity".to_string());
     // fixes the axis, orthonormal with determinant +1 (on the matrix of images)
@@ -213,11 +219,20 @@ fn judge<T: Tier, R: Rep3<T>>(ctx: &mut Ctx, ax: [T; 3], ang: Rad<T>, cs: (T::M,
     if let Some(i) = axis_index {
         let s = R::about(i, ang);
         eq_mc::<T, 3>(ctx, &key(&format!("from_angle_{}/{name}", ["x", "y", "z"][i])), s.mat(), want, slack);
+        // the two sine entries of an axis-aligned rotation are +-sin(angle) itself in every representation (2 sin cos of the
+        // half angle for the quaternion): known to a relative rounding, however small the angle
+        let sm = s.mat();
+        let (j, k) = ((i + 1) % 3, (i + 2) % 3);
+        eq_slice::<T>(ctx, &key(&format!("from_angle_{}/{name}/sine-entries", ["x", "y", "z"][i])), &[sm[j][k], sm[k][j]], &[cs.1, -cs.1], slack);
+        // ... and it is the same value of the type as from_axis_angle about the unit axis (up to rounding)
+        let (sc, rc) = (s.comps(), r.comps());
+        let rcm: Vec<T::M> = rc.iter().map(|x| x.lift().with_abs_err(4.0)).collect();
+        eq_slice::<T>(ctx, &key(&format!("from_angle_{}/{name}/as-a-value", ["x", "y", "z"][i])), &sc, &rcm, slack);
         ctx.check(s.structure_ok(), &key(&format!("from_angle_{}/{name}/homogeneous-part", ["x", "y", "z"][i])), || "fourth row/column is not that of the identity".to_string());
     }
     // angles add under composition about a common axis; r * invert(r) = one()
     let rr = r.mul(r);
-    eq_mc::<T, 3>(ctx, &key(&format!("compose/{name}/angles-add")), rr.mat(), model::axis_angle_mat(max, cs2), slack * 2.0);
+    eq_mc::<T, 3>(ctx, &key(&format!("compose/{name}/angles-add")), rr.mat(), model::axis_angle_mat(max, cs2).map(|c| c.map(|x| x.with_abs_err(8.0))), slack * 2.0);
     ctx.check(rr.structure_ok(), &key(&format!("compose/{name}/homogeneous-part")), || "r*r: fourth row/column is not that of the identity".to_string());
     let e = r.mul(r.inv());
     let dev = r.inv().structure_dev().max(e.structure_dev());
